@@ -25,6 +25,8 @@ from casadi import sumsqr, horzcat, linspace, substitute, MX, evalf, vcat, horzs
 import numpy as np
 
 class SingleShooting(SamplingMethod):
+    only_initial_state_is_variable = True
+
     def __init__(self, **kwargs):
         SamplingMethod.__init__(self, **kwargs)
 
